@@ -398,6 +398,9 @@ fn scenarios(r: &mut Rng) -> Vec<Scenario> {
         call: Step::Rollback(1, "manual".into()), suffix: vec![] });
     v.push(Scenario { kind: "replace_group_relays", n: 3, admin_mask: 0b011, victim: 1, rebuild: false, atomic: true,
         prefix: [full(3), hist(t, m0)].concat(), call: Step::Relays(1, vec!["wss://a.b".into(), "wss://c.d".into(), format!("wss://r{}.e", r.below(9))]), suffix: more(t, m0) });
+    // a purely additive replacement (every stored relay kept, several added): still one all-or-nothing step
+    v.push(Scenario { kind: "replace_group_relays", n: 3, admin_mask: 0b011, victim: 1, rebuild: false, atomic: true,
+        prefix: [full(3), hist(t, m0)].concat(), call: Step::Relays(1, vec!["wss://test.relay".into(), "wss://a.b".into(), "wss://c.d".into(), format!("wss://r{}.e", r.below(9))]), suffix: more(t, m0) });
     v
 }
 
